@@ -21,6 +21,14 @@ CHECKS = {
                 note="Trusted: my exact integer oracle (two independent copies, C++ and Python). Coordinates are "
                      "restricted to dyadic values for which all of gdstk's products are exact.",
                 technique="exhaustive enumeration + property-based testing (Hypothesis) vs exact winding-number oracle"),
+    "C19": dict(level="exploration", design="4 C19",
+                text="Systematic boundary values (every power of 16 / every 7-bit group boundary / every direction) plus "
+                     "Hypothesis-generated values and point lists through gdstk's encoders and decoders, judged by "
+                     "arbitrary-precision reference codecs in both directions (gdstk bytes decoded by the reference; "
+                     "every alternative legal reference encoding decoded by gdstk; >64-bit encodings must set Overflow).",
+                note="Trusted: pbt/oasnum.py (from DESIGN Appendix A.2) and the 6-line GDSII real decoder. Non-minimal "
+                     "integer encodings are limited to 10 bytes.",
+                technique="systematic boundary enumeration + property-based testing (Hypothesis) vs big-integer/Fraction reference codecs"),
     "C20": dict(level="exploration", design="4 C20",
                 text="Model-based histories: generated operation sequences over Map/Set/TagMap/StyleMap with keys crafted to "
                      "collide and wrap around the table end, through every growth step to capacity 2048; property-list "
